@@ -284,4 +284,34 @@ theorem good_balO : ∀ c, good c = true →
 theorem in_claimed_false (st : InState) : (!(st.included false) && st.hasPreimage) = false := by
   cases st <;> rfl
 
+/-! ### the statistics filter (`get_next_commitment_htlcs`) of the sender covers the peer's -/
+
+/-- the third argument of the inbound filter is unused -/
+theorem in_stats_flag (st : InState) (l u v : Bool) : st.inNextStats l u = st.inNextStats l v := by
+  cases st <;> cases l <;> rfl
+
+/-- HTLC offered by the sizing node: unless its revoke_and_ack is still undelivered, whatever the receiver
+    counts on its OWN next commitment (local = true) the offerer counts on that same commitment
+    (local = false, include_counterparty_unknown_htlcs = true) -/
+theorem good_stats_offered : ∀ c, good c = true → (c.fwd.contains .raa ||
+    (match c.i with
+     | some i => !(i.inNextStats true false) || (match c.o with | some o => o.inNextStats false true | none => false)
+     | none => true)) = true :=
+  good_all _ (by decide)
+
+/-- HTLC received by the sizing node: unless its removal message is still undelivered, whatever the offerer
+    counts on its OWN next commitment (local = true, unknown HTLCs excluded as in `validate_update_add_htlc`)
+    the sizing node counts on that same commitment (local = false) -/
+theorem good_stats_received : ∀ c, good c = true → (c.bwd.contains (.rem true) || c.bwd.contains (.rem false) ||
+    (match c.o with
+     | some o => !(o.inNextStats true false) || (match c.i with | some i => i.inNextStats false false | none => false)
+     | none => true)) = true :=
+  good_all _ (by decide)
+
+/-- when the receiver is about to verify a commitment_signed, every offered HTLC the signer put into it is
+    counted by the receiver's own-commitment filter (local = true) -/
+theorem good_stats_holder : ∀ c, good c = true → (!(c.fwd.head? == some .cs) || !inclT c.o ||
+    (match c.i with | some i => i.inNextStats true false | none => false)) = true :=
+  good_all _ (by decide)
+
 end Ldk.Chan
